@@ -72,7 +72,7 @@ func (v ArrayV) GoType() types.Type  { return v.Ty }
 func (v TupleV) GoType() types.Type  { return v.Ty }
 
 func typeKey(t types.Type) string {
-	return types.TypeString(t, nil)
+	return types.TypeString(types.Unalias(t), nil)
 }
 
 // Slot is one scalar leaf of a flattened type.
